@@ -241,6 +241,93 @@ fn main() {
         if !parked { hits.push("hook-missing", "the put_durable/delete_durable .logged hook point was not reached", json!({"kind": "order", "index": i})); }
     }
 
+    // ---------------------------------------------------------------- window: reads while a durable put of a NEW key is in flight
+    // (T1 is held at put_durable.logged: the WAL records are written, the in-memory apply is not done). exists, scan and get
+    // are issued one after the other meanwhile; the whole history must have a linearization (checked like every lin case):
+    // once a completed read has seen the key, every later read must see it too.
+    for (wi, cls) in [0u8, 0, 1, 2, 4].iter().enumerate() {
+        let hid = 900_000 + wi;
+        let k = Key { cls: *cls, idx: 0 };
+        let wal = dir.join("window.wal");
+        let _ = std::fs::remove_file(&wal);
+        let store = TensorStore::open_durable(&wal, WalConfig { sync_mode: SyncMode::Manual, ..WalConfig::default() }).unwrap();
+        let gate = Arc::new((Mutex::new(false), Condvar::new()));
+        let (tx, rx) = mpsc::channel::<()>();
+        let tx = Mutex::new(tx);
+        let g2 = gate.clone();
+        verif_hook::set(Some(Arc::new(move |name: &str| {
+            if ROLE.with(|r| r.get()) == 1 && name == "put_durable.logged" {
+                let _ = tx.lock().unwrap().send(());
+                let (m, cv) = &*g2;
+                let mut open = m.lock().unwrap();
+                let mut waited = 0;
+                while !*open && waited < 200 { let (o, _) = cv.wait_timeout(open, Duration::from_millis(50)).unwrap(); open = o; waited += 1; }
+            }
+        })));
+        let mut v = value(k, 7);
+        if *cls != 0 { v.set("_embedding", TensorValue::Vector(vec![7.0, 1.0, 2.0])); }
+        let put_inv = CLK.fetch_add(1, Ordering::SeqCst);
+        let (s1, kn1) = (store.clone(), kname(hid, k));
+        let t1 = std::thread::spawn(move || { ROLE.with(|r| r.set(1)); s1.put_durable(kn1, v).unwrap(); CLK.fetch_add(1, Ordering::SeqCst) });
+        let parked = rx.recv_timeout(Duration::from_secs(5)).is_ok();
+        let mut h: Vec<Rec> = vec![];
+        let mut timed = |id: u64, o: Op, h: &mut Vec<Rec>| { let inv = CLK.fetch_add(1, Ordering::SeqCst); let res = run_op(&store, hid, false, o); let rsp = CLK.fetch_add(1, Ordering::SeqCst); h.push(Rec { id, op: o, res, inv, rsp }); };
+        // emb keys: exists takes the key's stripe lock, which the writer does not hold while parked
+        let reads: Vec<Op> = if wi % 2 == 0 { vec![Op::Exists(k), Op::Scan(*cls), Op::Get(k)] } else { vec![Op::Scan(*cls), Op::Get(k), Op::Exists(k)] };
+        for (ri, o) in reads.iter().enumerate() { timed(10 + ri as u64, *o, &mut h); }
+        { let (m, cv) = &*gate; *m.lock().unwrap() = true; cv.notify_all(); }
+        let put_rsp = t1.join().unwrap();
+        verif_hook::set(None);
+        timed(20, Op::Get(k), &mut h);
+        timed(21, Op::Exists(k), &mut h);
+        h.push(Rec { id: 1, op: Op::Put(k, 7), res: Res::Unit, inv: put_inv, rsp: put_rsp });
+        h.sort_by_key(|r| r.inv);
+        dist.hit(if parked { "window.hook_fired" } else { "window.hook_missed" });
+        let shown = h.iter().map(|r| format!("{:?}->{:?}@[{},{}]", r.op, r.res, r.inv, r.rsp)).collect::<Vec<_>>().join(" ");
+        match wing_gong(&h) {
+            Some(ord) => lin.push(&format!("(true, {})", list(ord.iter().map(|i| rec_coq(&h[*i])))), &format!("window#{wi} class={} durable put of a new key held after its WAL append; linearizable: {shown}", PREFIX[*cls as usize]), true),
+            None => { dist.hit("lin.not_linearizable"); lin.push(&format!("(false, {})", list(h.iter().map(rec_coq))), &format!("window#{wi} class={} durable put of a new key held after its WAL append; NOT linearizable: {shown}", PREFIX[*cls as usize]), true) }
+        }
+    }
+
+    // ---------------------------------------------------------------- pscan: scan(p) = exactly the keys that start with p,
+    // over multi-byte keys and prefixes (the upper bound of the range scan is computed on bytes)
+    let mut pscan = CaseWriter::new(&args.out, "pscan");
+    {
+        let alphabet = ['a', 'b', '\u{7f}', '\u{80}', '\u{bf}', '\u{c0}', '\u{480}', '\u{7ff}', '\u{800}', '\u{d7ff}', '\u{e000}', '\u{ffff}', '\u{10000}', '\u{10ffff}'];
+        let mut corpus: Vec<(Vec<String>, String)> = vec![(vec!["\u{bf}x".into(), "\u{480}y".into()], "\u{bf}".into())];
+        for _ in 0..args.budget(120, 3000) {
+            let word = |r: &mut Rng, lo: u64, hi: u64| -> String { (0..r.range(lo, hi)).map(|_| *r.pick(&alphabet)).collect() };
+            let mut keys: Vec<String> = (0..rng.range(2, 10)).map(|_| word(&mut rng, 1, 3)).collect();
+            keys.sort();
+            keys.dedup();
+            let prefix = if rng.chance(1, 2) { let k = rng.pick(&keys).clone(); let n = rng.range(1, k.chars().count() as u64) as usize; k.chars().take(n).collect() } else { word(&mut rng, 1, 2) };
+            corpus.push((keys, prefix));
+        }
+        // keys of every key class (embedding keys live in the entity index too, cache keys in the cache ring only)
+        // and every proper prefix of them: "_", "_c", "_cache", "e", "em", "emb", ...
+        {
+            let class_keys: Vec<String> = ["_cache:a", "_cache:b", "_cfg", "emb:a", "emb:b", "embargo", "node:1", "nodes", "table:t", "edge:1", "e", "_blob:meta:x", "plain"].iter().map(|x| x.to_string()).collect();
+            let mut prefixes: Vec<String> = vec![];
+            for k in &class_keys { for n in 1..=k.len() { let p = k[..n].to_string(); if !prefixes.contains(&p) { prefixes.push(p); } } }
+            let take = args.budget(40, 1000).min(prefixes.len());
+            rng.shuffle(&mut prefixes);
+            for must in ["_", "_c", "_cache", "_cache:", "e", "emb", "emb:", "n"] { corpus.push((class_keys.clone(), must.to_string())); }
+            for p in prefixes.into_iter().take(take) { corpus.push((class_keys.clone(), p)); }
+        }
+        for (keys, prefix) in corpus {
+            let s = TensorStore::new();
+            for k in &keys { s.put(k.clone(), value(Key { cls: 4, idx: 0 }, 1)).unwrap(); }
+            let mut got = s.scan(&prefix);
+            got.sort_by(|a, bq| a.as_bytes().cmp(bq.as_bytes()));
+            let mut ks = keys.clone();
+            ks.sort_by(|a, bq| a.as_bytes().cmp(bq.as_bytes()));
+            let bl = |x: &str| bytes(x.as_bytes());
+            dist.hit(if prefix.is_ascii() { "pscan.ascii_prefix" } else { "pscan.multibyte_prefix" });
+            pscan.push(&format!("({}, {}, {})", bl(&prefix), list(ks.iter().map(|k| bl(k))), list(got.iter().map(|k| bl(k)))), &format!("scan({prefix:?}) over keys {ks:?} returned {got:?}"), !got.is_empty());
+        }
+    }
+
     // ---------------------------------------------------------------- lin: stress histories
     let plain = TensorStore::new();
     let wal = dir.join("lin.wal");
@@ -378,6 +465,45 @@ fn main() {
         }
     }
 
+    // ---------------------------------------------------------------- entity ids across recovery: fresh durable stores, a few keys; non-embedding keys
+    // whose value carries a vector take an entity id as well; after recovery every embedding key must return its own vector
+    for (ei, n_other) in [1usize, 2, 0, 1, 3].iter().enumerate() {
+        let wal6 = dir.join("ids.wal");
+        let _ = std::fs::remove_file(&wal6);
+        let cfg6 = WalConfig { sync_mode: SyncMode::Manual, ..WalConfig::default() };
+        let st = TensorStore::open_durable(&wal6, cfg6.clone()).unwrap();
+        let mut script: Vec<String> = vec![];
+        for j in 0..*n_other {
+            let mut t = TensorData::new();
+            t.set("v", TensorValue::Scalar(ScalarValue::Int(j as i64)));
+            t.set("_embedding", TensorValue::Vector(vec![j as f32, 1.0, 2.0]));
+            let k = format!("{}o{j}", ["user:", "node:", "table:"][j % 3]);
+            st.put_durable(k.clone(), t).unwrap();
+            script.push(format!("put_durable({k}, value with a 3-float _embedding)"));
+        }
+        let nemb = 2 + ei % 2;
+        let mut seq = 600u64 + ei as u64 * 10;
+        for j in 0..nemb { seq += 1; st.put_durable(format!("emb:i{j}"), value(Key { cls: 0, idx: j as u8 }, seq)).unwrap(); script.push(format!("put_durable(emb:i{j}, write {seq})")); }
+        // overwrite the oldest embedding key(s) only (their stale-id records must not land on a later key); then delete + re-create one
+        for j in 0..(nemb - 1) { seq += 1; st.put_durable(format!("emb:i{j}"), value(Key { cls: 0, idx: j as u8 }, seq)).unwrap(); script.push(format!("put_durable(emb:i{j}, write {seq})")); }
+        if ei >= 3 { let _ = st.delete_durable("emb:i0"); seq += 1; st.put_durable("emb:i0", value(Key { cls: 0, idx: 0 }, seq)).unwrap(); script.push(format!("delete_durable(emb:i0); put_durable(emb:i0, write {seq})")); }
+        st.wal_sync().unwrap();
+        let view = |s: &TensorStore| -> Vec<String> { (0..nemb).map(|j| format!("get(emb:i{j})={:?}", s.get(&format!("emb:i{j}")).ok().map(|t| decode(Key { cls: 0, idx: j as u8 }, &t)))).collect() };
+        let mem = view(&st);
+        drop(st);
+        match TensorStore::recover(&wal6, &cfg6, None) {
+            Ok(rec) => {
+                let r = view(&rec);
+                durable.push(&format!("i{ei}"), &format!("entity-ids#{ei}: {script:?}; memory {mem:?}; recovered {r:?}"), true);
+                dist.hit("recover.entity_id_script");
+                if mem != r {
+                    hits.push("recovery-differs", &format!("fresh durable store, {script:?}, quiescence, recover: in memory {mem:?} but after recovery {r:?} (a value >= 1000000 is tag*1000+vector: the fields of one write with the vector of another)"), json!({"kind": "entity-ids", "index": ei}));
+                }
+            }
+            Err(e) => hits.push("recover-error", &format!("recover failed: {e}"), json!({"kind": "entity-ids"})),
+        }
+    }
+
     // ---------------------------------------------------------------- first durable writes of NEW embedding keys from many threads at once
     // (every such write allocates an entity id and logs it): after quiescence recovery must return every key's own value
     {
@@ -419,6 +545,54 @@ fn main() {
             }
             Err(e) => hits.push("recover-error", &format!("recover failed: {e}"), json!({"kind": "newkeys"})),
         }
+    }
+
+    // ---------------------------------------------------------------- visibility hammer (hook-free): one writer durably puts FRESH embedding keys
+    // (fsync per record widens the window between logging and applying); readers do exists -> get and scan -> get;
+    // no delete is ever issued, so a key a completed read has seen must be found by every later get
+    {
+        let wal4 = dir.join("visible.wal");
+        let _ = std::fs::remove_file(&wal4);
+        let st = TensorStore::open_durable(&wal4, WalConfig::default()).unwrap();
+        let next = Arc::new(AtomicU64::new(0));
+        let stop = Arc::new(std::sync::atomic::AtomicBool::new(false));
+        let (s1, n1, st1) = (st.clone(), next.clone(), stop.clone());
+        let writer = std::thread::spawn(move || {
+            let mut i = 0u64;
+            while !st1.load(Ordering::Relaxed) {
+                i += 1;
+                n1.store(i, Ordering::SeqCst);
+                let k = Key { cls: 0, idx: 0 };
+                s1.put_durable(format!("emb:vis:{i}"), value(k, i)).unwrap();
+            }
+            i
+        });
+        let mut readers = vec![];
+        for ri in 0..3 {
+            let (s2, n2, st2) = (st.clone(), next.clone(), stop.clone());
+            readers.push(std::thread::spawn(move || {
+                let mut pairs = 0u64;
+                let mut bad: Option<String> = None;
+                while !st2.load(Ordering::Relaxed) && bad.is_none() {
+                    let i = n2.load(Ordering::SeqCst);
+                    let k = format!("emb:vis:{i}");
+                    if ri < 2 {
+                        if s2.exists(&k) { pairs += 1; if s2.get(&k).is_err() { bad = Some(format!("exists({k}) returned true and the following get({k}) returned NotFound (no delete is ever issued)")); } }
+                    } else {
+                        for key in s2.scan(&format!("emb:vis:{i}")) { pairs += 1; if s2.get(&key).is_err() { bad = Some(format!("scan listed {key} and the following get({key}) returned NotFound (no delete is ever issued)")); break; } }
+                    }
+                }
+                (pairs, bad)
+            }));
+        }
+        std::thread::sleep(Duration::from_millis(args.budget(500, 3000) as u64));
+        stop.store(true, Ordering::Relaxed);
+        let writes = writer.join().unwrap();
+        let mut pairs = 0; let mut bad: Option<String> = None;
+        for h in readers { let (n, bq) = h.join().unwrap(); pairs += n; if bad.is_none() { bad = bq; } }
+        dist.add("visibility.writes", writes);
+        hammer.push("v", &format!("visibility-hammer durable fresh emb keys: writes={writes} read pairs={pairs} bad={bad:?}"), writes > 0);
+        if let Some(bq) = bad { hits.push("seen-then-not-found", &format!("one writer put_durable of fresh embedding keys, 3 readers, after {writes} writes: {bq}"), json!({"kind": "visibility-hammer", "seed": args.seed})); }
     }
 
     // ---------------------------------------------------------------- bloom hammer: stores built with a Bloom filter; many threads put
@@ -463,6 +637,62 @@ fn main() {
         if let Some(bq) = bad {
             hits.push("put-lost-to-bloom-filter", &format!("store with a Bloom filter ({label}), {bq}"), json!({"kind": "bloom-hammer", "filter": label, "seed": args.seed}));
         }
+    }
+
+    // ---------------------------------------------------------------- bloom visibility: on a store with a Bloom filter a key that a scan
+    // has listed must be found by get and exists started afterwards (no delete is ever issued). More writer threads
+    // than cores: a writer descheduled between making the key visible to scans and to get/exists is caught by a reader.
+    for durable_store in [false, true] {
+        let wal5 = dir.join("bloomvis.wal");
+        let _ = std::fs::remove_file(&wal5);
+        let st = if durable_store { TensorStore::open_durable_with_bloom(&wal5, WalConfig { sync_mode: SyncMode::Manual, ..WalConfig::default() }, 100_000, 0.01).unwrap() } else { TensorStore::with_bloom_filter(100_000, 0.01) };
+        let nw = 2 * std::thread::available_parallelism().map(|n| n.get()).unwrap_or(8);
+        let cur: Arc<Vec<AtomicU64>> = Arc::new((0..nw).map(|_| AtomicU64::new(0)).collect());
+        let stop = Arc::new(std::sync::atomic::AtomicBool::new(false));
+        let mut writers = vec![];
+        for t in 0..nw {
+            let (s, cur, stop) = (st.clone(), cur.clone(), stop.clone());
+            writers.push(std::thread::spawn(move || {
+                let mut i = 0u64;
+                let v = value(Key { cls: 4, idx: 0 }, 1);
+                while !stop.load(Ordering::Relaxed) {
+                    i += 1;
+                    cur[t].store(i, Ordering::SeqCst);
+                    let k = format!("bv{t}:{i}:");
+                    if durable_store { s.put_durable(k, v.clone()).unwrap(); } else { s.put(k, v.clone()).unwrap(); }
+                }
+                i
+            }));
+        }
+        let mut readers = vec![];
+        for ri in 0..4usize {
+            let (s, cur, stop) = (st.clone(), cur.clone(), stop.clone());
+            readers.push(std::thread::spawn(move || {
+                let mut pairs = 0u64;
+                let mut bad: Option<String> = None;
+                let mut t = ri;
+                while !stop.load(Ordering::Relaxed) && bad.is_none() {
+                    t = (t + 1) % cur.len();
+                    let i = cur[t].load(Ordering::SeqCst);
+                    let k = format!("bv{t}:{i}:");
+                    // the metadata slab alone answers this (one shard lock); SlabRouter::scan would also walk the whole cache ring
+                    if s.router().metadata.contains(&k) || !s.router().metadata.scan(&k).is_empty() {
+                        pairs += 1;
+                        let (e, g) = (s.exists(&k), s.get(&k).is_ok());
+                        if !e || !g { bad = Some(format!("the key {k} is in the store (a scan of its prefix lists it) but exists -> {e} and get -> {}", if g { "found" } else { "NotFound" })); }
+                    }
+                }
+                (pairs, bad)
+            }));
+        }
+        std::thread::sleep(Duration::from_millis(args.budget(600, 4000) as u64));
+        stop.store(true, Ordering::Relaxed);
+        let writes: u64 = writers.into_iter().map(|h| h.join().unwrap()).sum();
+        let mut pairs = 0; let mut bad: Option<String> = None;
+        for h in readers { let (n, bq) = h.join().unwrap(); pairs += n; if bad.is_none() { bad = bq; } }
+        dist.add("bloomvis.writes", writes);
+        hammer.push(&format!("bv{}", durable_store as u8), &format!("bloom-visibility durable={durable_store} writers={nw} writes={writes} listed-then-read pairs={pairs} bad={bad:?}"), pairs > 0);
+        if let Some(bq) = bad { hits.push("listed-then-not-found", &format!("store with a Bloom filter (durable log {}), {nw} writers of fresh keys and 4 readers, after {writes} writes: {bq}", if durable_store { "on" } else { "off" }), json!({"kind": "bloom-visibility", "seed": args.seed})); }
     }
 
     // ---------------------------------------------------------------- scan hammer: a prefix scan is one of the states it overlapped
@@ -541,6 +771,16 @@ fn main() {
             st.put_durable(k(1), mk(base + 4, false)).unwrap();   // overwritten without a vector
             if rng.chance(1, 2) { let _ = st.delete_durable(&k(2)); st.put_durable(k(2), mk(base + 5, true)).unwrap(); script.push(format!("re-created {}", k(2))); }
         }
+        // entity ids: a non-embedding key whose value carries a vector takes an id too; the embedding keys written
+        // after it (slab-dimension vectors) must come back with their OWN vectors
+        st.put_durable("user:rv", mk(77, true)).unwrap();
+        st.put_durable("emb:ra", value(Key { cls: 0, idx: 0 }, 501)).unwrap();
+        st.put_durable("emb:rb", value(Key { cls: 0, idx: 1 }, 502)).unwrap();
+        st.put_durable("emb:ra", value(Key { cls: 0, idx: 0 }, 503)).unwrap();
+        st.put_durable("node:rv", mk(78, true)).unwrap();
+        st.put_durable("emb:rc", value(Key { cls: 0, idx: 2 }, 504)).unwrap();
+        let _ = st.delete_durable("emb:rb");
+        st.put_durable("emb:rb", value(Key { cls: 0, idx: 1 }, 505)).unwrap();
         st.wal_sync().unwrap();
         let view = |s: &TensorStore| -> Vec<String> {
             let mut out = vec![];
@@ -553,6 +793,9 @@ fn main() {
                     let g = s.get(&k).ok().map(|t| { let mut f: Vec<String> = t.iter().map(|(a, bq)| format!("{a}={bq:?}")).collect(); f.sort(); f });
                     out.push(format!("get({k})={g:?} exists={}", s.exists(&k)));
                 }
+            }
+            for (k, key) in [("emb:ra", Key { cls: 0, idx: 0 }), ("emb:rb", Key { cls: 0, idx: 1 }), ("emb:rc", Key { cls: 0, idx: 2 })] {
+                out.push(format!("get({k})={:?} (tag, or 1000000+tag*1000+vector when the vector belongs to another write) exists={}", s.get(k).ok().map(|t| decode(key, &t)), s.exists(k)));
             }
             out
         };
@@ -576,10 +819,10 @@ fn main() {
         &args.out,
         json!({
             "property": "C11", "seed": args.seed, "tier": args.tier,
-            "kinds": [order.summary(), lin.summary(), durable.summary(), hammer.summary()],
+            "kinds": [order.summary(), lin.summary(), pscan.summary(), durable.summary(), hammer.summary()],
             "distribution": dist.json(),
             "hits": hits.0,
-            "nontrivial_rule": "lin: every history (2-4 threads run concurrently; how many actually overlapped in time is scheduler-dependent and reported in the distribution as lin.observed_overlap); order: always; durable: at least one key compared; hammer: at least one read found a value",
+            "nontrivial_rule": "lin: every history (2-4 threads run concurrently; how many actually overlapped in time is scheduler-dependent and reported in the distribution as lin.observed_overlap); order: always; durable: at least one key compared; hammer: at least one read found a value; pscan: the scan returned at least one key",
         }),
     );
 }
